@@ -301,7 +301,8 @@ def run(tier, seed, log):
         results,
         "every ordered multigraph of each space; per state every ordered vertex pair (incl. a is b) x "
         "direction flag x 3 unknown modes x 4 filters: set oracle and size relation with neighbors(); then "
-        "for every unordered pair, unlink on a fresh copy and re-query every pair and setting; non-trivial "
+        "for every unordered pair, unlink on a fresh copy and re-query every pair and setting; all of it again with "
+        "caching on and warm memos (every raising-mode call first, then the table twice); non-trivial "
         "= the pair is joined by a link")
     rep.assumptions = ["caching off; ends are vertices",
                        "ERROR mode: when the filter rejects every unknown-class joining link, raising and not "
